@@ -207,6 +207,15 @@ impl FromStr for Calendar {
     }
 }
 
+/// ICU4X's calendar arithmetic is not defined for arbitrary 32 bit years; no calendar year
+/// this far from zero corresponds to a date in the supported ISO range.
+fn check_calendar_year_range(year: i32) -> TemporalResult<()> {
+    if year.unsigned_abs() > 1_000_000 {
+        return Err(TemporalError::range().with_message("year is not in a valid range."));
+    }
+    Ok(())
+}
+
 /// ISO 8601 week numbering: weeks start on Monday and week 1 is the week
 /// that has at least four of its days in the new year.
 fn iso_week_calculator() -> WeekCalculator {
@@ -244,6 +253,7 @@ impl Calendar {
             );
         }
 
+        check_calendar_year_range(resolved_fields.era_year.year)?;
         let calendar_date = self
             .0
             .date_from_codes(
@@ -305,6 +315,7 @@ impl Calendar {
         }
 
         // NOTE: This might preemptively throw as `ICU4X` does not support regulating.
+        check_calendar_year_range(resolved_fields.era_year.year)?;
         let calendar_date = self
             .0
             .date_from_codes(
